@@ -172,7 +172,7 @@ def check_access(spec):
             tmp = d / 'scratch'
             tmp.mkdir()
         layer_arg = 'X' if f['layer'] is None else f['layer']
-        if tmp is not None and f['enc'] != 'dense' and n > 1:
+        if tmp is not None and f['enc'] != 'dense' and n > 1 and spec.get('decoy', True):
             # another file of the same base name (in another directory, holding the rows in reverse order) is read
             # first through the same scratch directory: what it leaves there must not leak into the reading below
             (d / 'other').mkdir()
@@ -247,7 +247,7 @@ def check_access(spec):
             del it
             # the same reading resumed: the first k chunks taken with next(), the rest by a for loop over the same
             # object (a reader that peeks at the first chunk and then loops) - still every row once, in file order
-            if rcs < n:
+            if rcs < n and (spec.get('resume', 'all') == 'all' or (spec.get('resume') == 'first' and rcs == min(spec['row_chunk_sizes']))):
                 n_total = -(-n // rcs)
                 k = 1 + (spec['mat'].get('seed', 0) + rcs) % max(1, n_total - 1)
                 it2 = _lib('constructor_raised', ctx, lambda: AnnDataRowIterator(
